@@ -183,8 +183,9 @@ def formulas_with_atoms(ax: Axes, atoms: Dict[int, tuple]) -> List[T]:
     return [t for t in skeleton if strip_cast(t).id not in inner and t.id not in inner]
 
 
-def decisive(ax: Axes, F: T, atoms: Dict[int, tuple]):
-    """(ok or None, detail)"""
+def decisive(ax: Axes, F: T, atoms: Dict[int, tuple], want: Optional[bool] = None):
+    """(ok or None, detail).  `want`: the truth value the formula must take when an atom is on its outside value
+    (None = any, as long as all atoms agree)."""
     leaves: List[T] = []
 
     def collect(t: T):
@@ -244,6 +245,8 @@ def decisive(ax: Axes, F: T, atoms: Dict[int, tuple]):
     values = {next(iter(v)) for v in verdicts.values() if len(v) == 1}
     if not undecided and len(values) == 1:
         s = next(iter(values))
+        if want is not None and s is not want:
+            return False, f"the formula is {s} whenever one of its {len(my_atoms)} decisive conditions is on its excluded value: polarity inverted"
         return True, f"{len(my_atoms)} border tests, each forces the formula to {s} when its coordinate is outside ({len(free)} other sub-formulas free)"
     if undecided:
         a = undecided[0]
